@@ -455,19 +455,26 @@ inductive Key
   | col (f : String)
   | cols (fs : List String)
   | rows (k : RowKey)
+  | tuple (ks : List RowKey)
 deriving DecidableEq, Repr, Inhabited
 
+/-- a row key of a selector: `_process_slice`, then the slicer -/
+def selectorRows (s : Selector) (k : RowKey) : Except Err (Sum Selector Frame) :=
+  match processKey s.nmax k with
+  | .error e => .error e
+  | .ok (lo, hi) => match s.slice lo hi with
+    | .error e => .error e
+    | .ok f => .ok (.inr f)
+
 /-- `RangeSelector1D.__getitem__`: a column key gives a new selector over the same table (the new
-key *replaces* `fields`); a row key is normalised by `_process_slice` and read -/
+key *replaces* `fields`); a row key is normalised by `_process_slice` and read; a 1-tuple is its
+element, any other tuple `IndexError("too many indices for table")` -/
 def selectorGetItem (s : Selector) : Key → Except Err (Sum Selector Frame)
   | .col f => .ok (.inl { s with fields := .one f })
   | .cols fs => .ok (.inl { s with fields := .many fs })
-  | .rows k =>
-    match processKey s.nmax k with
-    | .error e => .error e
-    | .ok (lo, hi) => match s.slice lo hi with
-      | .error e => .error e
-      | .ok f => .ok (.inr f)
+  | .rows k => selectorRows s k
+  | .tuple [k] => selectorRows s k
+  | .tuple _ => .error .index
 
 /-- `sel[k]` for a row key -/
 def Selector.getRows (s : Selector) (k : RowKey) : Except Err Frame :=
